@@ -150,7 +150,7 @@ async def produce_workload(loop, src, cluster, cfg, plan, tasks_spec, res):
             if not t.done():
                 t.cancel()
         res["late_accepted"] = [s for s in sends if s["fut"] is not None and s.get("accepted_at", 0) > res.get("stop_returned_at", 1e9)]
-    res["tasks_left"] = [t for t in asyncio.all_tasks(loop) if t is not asyncio.current_task(loop) and not t.done()]
+    res["tasks_left"] = vloop.library_tasks(loop)
     res["timers_left"] = [h for h in loop.live_timers()]
     res["conns_open"] = [c for c in cluster.conns if c.connected()]
 
